@@ -307,3 +307,24 @@ package labels
 //@   invariant loop 6: votemap != nil
 //@   invariant loop 7: votemap != nil && (forall l uint64 :: visited7[l] ==> !has(votemap, l)) && (winner != 0 ==> visited7[winner])
 //@   assert at "li := (lz+vz)*nyx + (ly+vy)*blockSize[0] + lx + vx": forall l uint64 :: !has(votemap, l)
+
+// WriteBinaryBlock, uniform sub-blocks (C09, C08: the binary-block sparse volume equals a voxel scan): a
+// sub-block that holds a single label is written as all-foreground exactly when that label's index is one
+// of the targeted indices - whether one or several indices are targeted - and as all-background otherwise.
+// ASSUMED (a fact about Go maps that the engine's map model does not contain): a map of length 1 has a
+// single key.
+//@ func PositionedBlock.WriteBinaryBlock
+//@   prop C09 C08
+//@   requires pb != nil
+//@   safety_off
+//@   calls_havoc
+//@   modifies *
+//@   assume at "if foreground {": len(indices) == 1 ==> (forall a uint32, b uint32 :: has(indices, a) && has(indices, b) ==> a == b)
+//@   ghost one bool = false
+//@   ghostset at "gx, gy, gz := pb.Size[0]/SubBlockSize, pb.Size[1]/SubBlockSize, pb.Size[2]/SubBlockSize": one = !multiForeground
+//@   assert at "gx, gy, gz := pb.Size[0]/SubBlockSize, pb.Size[1]/SubBlockSize, pb.Size[2]/SubBlockSize": !multiForeground ==> len(indices) == 1 && has(indices, labelIndex)
+//@   invariant loop 2: (!multiForeground ==> len(indices) == 1 && has(indices, labelIndex)) && (multiForeground ==> len(indices) > 1)
+//@   invariant loop 3: (!multiForeground ==> len(indices) == 1 && has(indices, labelIndex)) && (multiForeground ==> len(indices) > 1)
+//@   invariant loop 4: (!multiForeground ==> len(indices) == 1 && has(indices, labelIndex)) && (multiForeground ==> len(indices) > 1)
+//@   assert at "data[0] = 1": numSBLabels == 1 ==> has(indices, curIndices[0])
+//@   assert at "data[0] = 0": numSBLabels == 1 ==> !has(indices, curIndices[0])
